@@ -551,3 +551,82 @@ Proof.
   - reflexivity.
 Qed.
 End L.
+
+(* ---------------- EI is never negative (partial: the behaviour of Phi at -oo is a hypothesis) -- *)
+Section EINonneg.
+Variable Phi : R -> R.
+Hypothesis HPhi : forall u, is_derive Phi u (gauss_pdf u).
+Hypothesis Hnn : forall u, 0 <= Phi u.
+(* liminf_{u -> -oo} (u Phi(u) + pdf(u)) >= 0 *)
+Hypothesis Hlim : forall eps, 0 < eps -> exists M, forall u, u < M -> - eps < u * Phi u + gauss_pdf u.
+
+Let g (u : R) := u * Phi u + gauss_pdf u.
+
+Lemma g_derive u : is_derive g u (Phi u).
+Proof.
+  unfold g. eapply is_derive_eq.
+  - apply @is_derive_plus.
+    + apply @is_derive_mult; [apply @is_derive_id | apply HPhi | intros; apply Rmult_comm].
+    + apply gauss_pdf_derive.
+  - unfold plus, mult, one; simpl. ring.
+Qed.
+
+Lemma g_mono v u : v <= u -> g v <= g u.
+Proof.
+  intros Hvu. destruct (Req_dec v u) as [->|Hne]; [lra|].
+  destruct (MVT_gen g v u Phi) as [c [Hc Hgc]].
+  - intros x _. apply g_derive.
+  - intros x _. apply continuity_pt_filterlim. apply @ex_derive_continuous. eexists; apply g_derive.
+  - generalize (Hnn c). intros. assert (0 <= Phi c * (u - v)) by (apply Rmult_le_pos; lra). lra.
+Qed.
+
+Lemma ei_integrand_nonneg u : 0 <= u * Phi u + gauss_pdf u.
+Proof.
+  destruct (Rle_lt_dec 0 (g u)) as [H|H]; [exact H|]. exfalso.
+  destruct (Hlim (- g u)) as [M HM]; [lra|].
+  set (v := Rmin (M - 1) u).
+  assert (Hv1 : v < M) by (unfold v; generalize (Rmin_l (M - 1) u); lra).
+  assert (Hv2 : v <= u) by (unfold v; apply Rmin_r).
+  specialize (HM v Hv1). generalize (g_mono v u Hv2). unfold g in *. lra.
+Qed.
+
+Lemma sum_nonpos (f : nat -> R) idx : (forall j, In j idx -> f j <= 0) -> fold_right Rplus 0 (map f idx) <= 0.
+Proof.
+  induction idx as [|i idx IH]; intros H; simpl; [lra|].
+  generalize (H i (or_introl eq_refl)) (IH (fun j Hj => H j (or_intror Hj))). lra.
+Qed.
+
+Lemma ei_head_nonpos (C : Cfg R) (means : list R) (std : R) (bests : list R) :
+  0 < c_std_min C -> ei_head (ROps Phi gauss_pdf) C means std bests <= 0.
+Proof.
+  intros Hmin. unfold ei_head. cbv zeta. rewrite tmean_tab.
+  set (n := bsize (length means) (length bests)).
+  assert (Hs : fold_right Rplus 0 (map (fun j =>
+     let u := quant_u (ROps Phi gauss_pdf) C (bget (ROps Phi gauss_pdf) bests j) (bget (ROps Phi gauss_pdf) means j)
+                      (clamp_std (ROps Phi gauss_pdf) C std) in
+     o_mul (ROps Phi gauss_pdf) (o_opp (ROps Phi gauss_pdf) (clamp_std (ROps Phi gauss_pdf) C std))
+       (o_add (ROps Phi gauss_pdf) (o_mul (ROps Phi gauss_pdf) u (o_cdf (ROps Phi gauss_pdf) u)) (o_pdf (ROps Phi gauss_pdf) u)))
+     (seq 0 n)) <= 0).
+  { apply sum_nonpos. intros j _. cbv zeta. cbn [o_mul o_opp o_add o_cdf o_pdf ROps].
+    set (u := quant_u _ _ _ _ _).
+    assert (Hpos : 0 < clamp_std (ROps Phi gauss_pdf) C std).
+    { unfold clamp_std; cbn. generalize (Rmax_r std (c_std_min C)). lra. }
+    generalize (ei_integrand_nonneg u). intros Hg.
+    assert (0 <= clamp_std (ROps Phi gauss_pdf) C std * (u * Phi u + gauss_pdf u)) by (apply Rmult_le_pos; lra).
+    lra. }
+  destruct n as [|n].
+  - simpl. unfold Rdiv. lra.
+  - unfold Rdiv. assert (0 < / INR (S n)) by (apply Rinv_0_lt_compat, lt_0_INR; lia).
+    assert (Hx : forall a b, a <= 0 -> 0 < b -> a * b <= 0) by (intros; nra). apply Hx; assumption.
+Qed.
+End EINonneg.
+
+Lemma cdf_spec_sat : exists Phi : R -> R, forall u, is_derive Phi u (gauss_pdf u).
+Proof.
+  assert (Hc : forall u, continuous gauss_pdf u).
+  { intros u. apply @ex_derive_continuous. eexists; apply gauss_pdf_derive. }
+  exists (fun u => RInt gauss_pdf 0 u). intros u.
+  apply (is_derive_RInt gauss_pdf (fun u => RInt gauss_pdf 0 u) 0 u).
+  - apply filter_forall. intros y. apply @RInt_correct. apply @ex_RInt_continuous. intros z _. apply Hc.
+  - apply Hc.
+Qed.
